@@ -38,6 +38,7 @@ type world struct {
 		Stop() <-chan struct{}
 		VerifPort() int
 		VerifTxtRecords() map[string]string
+		XHMURI() (string, error)
 	}
 	port    int
 	accs    []*accessory.Accessory
@@ -85,15 +86,26 @@ func buildAccessories() []*accessory.Accessory {
 }
 
 func newWorld(pin string, nacc int) (*world, error) {
-	w := &world{conns: map[string]*ctlConn{}, ids: map[string]*identity{}, setups: map[string]*setupRun{}, verifs: map[string]*verifyRun{}}
-	w.dir = tempDir()
-	w.accs = buildAccessories()
+	accs := buildAccessories()
 	for i := 0; i < nacc; i++ {
 		lb := accessory.NewLightbulb(accessory.Info{Name: fmt.Sprintf("Extra %d", i), SerialNumber: fmt.Sprintf("CANARY-X-%d", i), Manufacturer: "verif", Model: "m"})
-		w.accs = append(w.accs, lb.Accessory)
+		accs = append(accs, lb.Accessory)
+	}
+	return newWorldAt(tempDir(), hc.Config{Pin: pin}, accs)
+}
+
+// newWorldAt starts a transport for the given accessories on an existing storage directory
+func newWorldAt(dir string, cfg hc.Config, accs []*accessory.Accessory) (*world, error) {
+	w := &world{conns: map[string]*ctlConn{}, ids: map[string]*identity{}, setups: map[string]*setupRun{}, verifs: map[string]*verifyRun{}}
+	w.dir = dir
+	w.accs = accs
+	pin := cfg.Pin
+	if pin == "" {
+		pin = "00102003"
 	}
 	w.pin = pin
-	t, err := hc.NewIPTransport(hc.Config{StoragePath: w.dir, Pin: pin}, w.accs[0], w.accs[1:]...)
+	cfg.StoragePath = dir
+	t, err := hc.NewIPTransport(cfg, w.accs[0], w.accs[1:]...)
 	if err != nil {
 		return nil, err
 	}
@@ -126,6 +138,12 @@ func newWorld(pin string, nacc int) (*world, error) {
 }
 
 func (w *world) close() {
+	w.stop()
+	os.RemoveAll(w.dir)
+}
+
+// stop shuts the transport down and leaves the storage directory in place
+func (w *world) stop() {
 	for _, c := range w.conns {
 		c.c.Close()
 	}
@@ -133,7 +151,6 @@ func (w *world) close() {
 	case <-w.t.Stop():
 	case <-time.After(3 * time.Second):
 	}
-	os.RemoveAll(w.dir)
 }
 
 func (w *world) stored() string {
